@@ -94,7 +94,7 @@ def evaluate(name, props=None):
                     v['replay'] = dict(kind=r.get('kind'), message=r.get('message') or r.get('what'), history=r.get('history'))
             verdicts[p] = v
     finally:
-        sh('git checkout -- .', cwd='/repo')
+        sh('git checkout -- . && git clean -fdq src', cwd='/repo')
     meta.setdefault('check_results', {}).update(verdicts)
     json.dump(meta, open(os.path.join(d, 'meta.json'), 'w'), indent=1)
     return verdicts
